@@ -92,7 +92,9 @@ CLAIMED = {
     "C04": dict(
         text=("Lean 4 theorems: the scan returns an in-band index with a non-missing energy that is the maximum of the "
               "in-band non-missing energies, and no earlier in-band index attains it (first maximum, ties to the lowest "
-              "index); it fails exactly when no in-band bin has a value; the index never leaves the band. Correspondence: "
+              "index); it fails exactly when no in-band bin has a value; the index never leaves the band; a peak wavenumber "
+              "returned through the dispersion solver's convergence test satisfies |omega(k) - w|/w < tol at the spectrum's "
+              "own depth (deep for a missing depth); batch = map. Correspondence: "
               "peak_index on multi-peaked, plateaued, NaN, zero-energy spectra x bands against the model; peak "
               "frequency/period/direction/spread = values at that index and the dispersion residual of peak_wavenumber "
               "on the implementation."),
